@@ -25,6 +25,14 @@ theorem stackBeq_eq : ∀ {a b : List (Nat × Nat)}, stackBeq a b = true → a =
     obtain ⟨⟨h1, h2⟩, h3⟩ := h
     rw [h1, h2, stackBeq_eq h3]
 
+theorem natListBeq_eq : ∀ {a b : List Nat}, natListBeq a b = true → a = b
+  | [], [], _ => rfl
+  | [], _ :: _, h => by simp [natListBeq] at h
+  | _ :: _, [], h => by simp [natListBeq] at h
+  | a :: r, b :: r', h => by
+    simp only [natListBeq, Bool.and_eq_true, beq_iff_eq] at h
+    rw [h.1, natListBeq_eq h.2]
+
 theorem Park.code_inj {a b : Park} (h : a.code = b.code) : a = b := by
   cases a <;> cases b <;> (try rename_i l x; cases x) <;> (try rename_i l' y; cases y) <;>
     simp only [Park.code] at h <;> (try omega) <;> (try rfl) <;> (congr 1; omega)
@@ -53,10 +61,11 @@ theorem thsBeq_eq : ∀ {a b : List Th}, thsBeq a b = true → a = b
 
 theorem St.beq_eq {a b : St} (h : a.beq b = true) : a = b := by
   simp only [St.beq, Bool.and_eq_true, beq_iff_eq] at h
-  obtain ⟨⟨⟨⟨⟨⟨⟨⟨h1, h2⟩, h3⟩, h4⟩, h5⟩, h6⟩, h7⟩, h9⟩, h8⟩ := h
+  obtain ⟨⟨⟨⟨⟨⟨⟨⟨⟨h1, h2⟩, h3⟩, h4⟩, h5⟩, h6⟩, h7⟩, h9⟩, h10⟩, h8⟩ := h
   cases a; cases b
   simp only [St.mk.injEq]
-  exact ⟨boolBeq_eq h1, boolBeq_eq h2, h3, optNatBeq_eq h4, optNatBeq_eq h5, optNatBeq_eq h6, h7, h9, thsBeq_eq h8⟩
+  exact ⟨boolBeq_eq h1, boolBeq_eq h2, h3, optNatBeq_eq h4, optNatBeq_eq h5, optNatBeq_eq h6, h7, h9, natListBeq_eq h10,
+         thsBeq_eq h8⟩
 
 theorem memBucket_sound {k : Nat} {s : St} : ∀ {l : List (Nat × St)}, memBucket k s l = true → s ∈ l.map (·.2)
   | [], h => by simp [memBucket] at h
